@@ -312,28 +312,35 @@ difference.  If the first sleep ended with the wall clock at or before the insta
 `next_time_adj` is the exact real distance, and for once()/period() on a day made longer by a fall-back) and the zone offset
 does not change during the remaining wait, the function runs exactly when the wall clock reads `time_next` – whatever
 `time_next_adj` was.  Holds for every flag value that re-checks against `time_next`, in particular for both loops as they are. -/
-theorem C06_wait_on_time (W : WFlags) (hW : W.recheckAdj = false) (Z : Zone) (next adj r1 : Int) (n : Nat)
+theorem C06_wait_on_time (W : WFlags) (hW : W.recheckAdj = false) (hs : 0 ≤ W.slack) (Z : Zone) (next adj r1 : Int) (n : Nat)
     (hle : wallAt Z r1 ≤ next) (hstable : Z.offReal (r1 + (next - wallAt Z r1)) = Z.offReal r1) :
-    wallAt Z (waitFire W Z next adj (n + 1) r1) = next := by
+    next - W.slack ≤ wallAt Z (waitFire W Z next adj (n + 1) r1) ∧ wallAt Z (waitFire W Z next adj (n + 1) r1) ≤ next := by
   simp only [waitFire, hW, Bool.false_eq_true, if_false]
-  by_cases hlt : wallAt Z r1 < next
+  by_cases hlt : wallAt Z r1 + W.slack < next
   · simp only [hlt, if_true]
     have hw : wallAt Z (r1 + (next - wallAt Z r1)) = next := by
       simp only [wallAt] at hstable ⊢
       rw [hstable]; omega
     cases n with
-    | zero => simpa [waitFire] using hw
+    | zero => simp only [waitFire, hw]; omega
     | succ k =>
-      simp only [waitFire, hW, Bool.false_eq_true, if_false, hw, Int.lt_irrefl]
+      have hno : ¬ next + W.slack < next := by omega
+      simp only [waitFire, hW, Bool.false_eq_true, if_false, hw, hno]
+      omega
   · simp only [hlt, if_false]
     omega
 
-/-- the two loops as they are -/
+/-- the two loops as they are: the legacy loop runs the function exactly when the wall clock reads the instant, the new one
+at most one microsecond before (`if timeout <= 1e-6: break`) – never a millisecond early, which is what makes the next
+computation see a `now` not before the instant (seeded change C06_6 widened that slack to 1 ms and got every instant twice) -/
 theorem C06_wait_on_time_both (Z : Zone) (next adj r1 : Int) (n : Nat)
     (hle : wallAt Z r1 ≤ next) (hstable : Z.offReal (r1 + (next - wallAt Z r1)) = Z.offReal r1) :
     wallAt Z (waitFire WFlags.legacy Z next adj (n + 1) r1) = next ∧
-    wallAt Z (waitFire WFlags.new Z next adj (n + 1) r1) = next :=
-  ⟨C06_wait_on_time WFlags.legacy rfl Z next adj r1 n hle hstable, C06_wait_on_time WFlags.new rfl Z next adj r1 n hle hstable⟩
+    next - 1 ≤ wallAt Z (waitFire WFlags.new Z next adj (n + 1) r1) ∧ wallAt Z (waitFire WFlags.new Z next adj (n + 1) r1) ≤ next := by
+  have h1 := C06_wait_on_time WFlags.legacy rfl (by decide) Z next adj r1 n hle hstable
+  have h2 := C06_wait_on_time WFlags.new rfl (by decide) Z next adj r1 n hle hstable
+  simp only [WFlags.legacy, WFlags.new] at h1 h2 ⊢
+  omega
 
 /-- America/Los_Angeles around 2024-11-03 09:00 UTC (fall-back): wall clock = real time − 7 h before, − 8 h after -/
 def zFall : Zone := ⟨fun r => if r < 1730624400000000 then -25200000000 else -28800000000⟩
@@ -361,6 +368,22 @@ theorem C06_cex_once_spring_forward :
     let r1 : Int := 1709994600000000 + (next - 1709965800000000)
     wallAt zSpring (waitFire WFlags.legacy zSpring next next 4 r1) = next + 3600000000 ∧
     wallAt zSpring (waitFire WFlags.new zSpring next next 4 r1) = next + 3600000000 := by
+  decide
+
+/-- finding C06-F8 (new subsystem): `period(2024/6/3 12:00:01, 5s)` started at 12:00:00.25 on a wall clock that runs 1 ppm
+slower than the clock asyncio sleeps on.  The 0.75 s sleep ends with the wall clock at 12:00:00.999999; `timeout <= 1e-6` lets
+the function run, the next computation starts from a `now` that is still before 12:00:01 and announces 12:00:01 again: the same
+`trigger_time` is dispatched twice.  The legacy loop (`actual_now < time_next`) sleeps the last microsecond and goes on to
+12:00:06. -/
+theorem C06_cex_new_early_by_one_us_twice :
+    let P : Params := ⟨C07.Params.trivial, fun a p => a / p, fun _ t => t + 1, fun _ => 0⟩
+    let st : Int := 1717416000250000
+    let Z : Zone := ⟨fun x => -(((x - st) * 1 + 500000) / 1000000)⟩
+    let spec : TSpec := .period (.at (.full 2024 6 3) (.hms 12 0 1000000) 0) 5000000 none
+    (dstLoop WFlags.new TFlags.current P [spec] st Z 2 st).map (fun x => (x.1, x.2.1)) =
+      [(1717416001000000, 1717416000999999), (1717416001000000, 1717416001000000)] ∧
+    (dstLoop WFlags.legacy TFlags.current P [spec] st Z 2 st).map (fun x => (x.1, x.2.1)) =
+      [(1717416001000000, 1717416001000000), (1717416006000000, 1717416006000000)] := by
   decide
 
 /-! ## non-vacuity -/
